@@ -149,9 +149,34 @@ def _check_upto_forwarded(ctx, res, cf, fp, forwarded, rule, f, text, where):
                     break
                 cur = v.parent.get(id(cur))
             for x in {nid, tid} - {None}:
-                if x != cid and (v.cfg.reachable(x, cid) or v.cfg.reachable(cid, x)):
+                if x == cid:
+                    continue
+                if v.cfg.reachable(x, cid):
+                    others.append(n)
+                elif v.cfg.reachable(cid, x) and not _excluded_after(v, cf.node, n):
                     others.append(n)
     if cid is None or others:
         res.unknown(rule, f, text, f"{cf.callee.short}:up_to", "up_to is not handed on at this call but is read elsewhere on the paths through it", where)
         return
     res.violation(rule, f, text, f"{cf.callee.short}:up_to", f"the caller's {'/'.join(direct)} filter is handed on but its `up_to` switch is not ({'literal' if passed is not None else 'omitted'}): with up_to=True the query is answered for the exact order/size only", where)
+
+
+def _excluded_after(v, call, later) -> bool:
+    """`X = <... call ...>` and `later` sits under `if X is None [and ...]:` - once X was assigned from the call that arm
+    does not run on the same path (the usual `w = None ... if w is None: w = ...` ladder)."""
+    st = v.stmt_of(call)
+    if not (isinstance(st, ast.Assign) and len(st.targets) == 1 and isinstance(st.targets[0], ast.Name)):
+        return False
+    if isinstance(st.value, ast.Constant) and st.value.value is None:
+        return False
+    x = st.targets[0].id
+    for iff in v.enclosing_all(later, (ast.If,)):
+        in_body = any(later is y for b in iff.body for y in ast.walk(b))
+        if not in_body:
+            continue
+        atoms = iff.test.values if isinstance(iff.test, ast.BoolOp) and isinstance(iff.test.op, ast.And) else [iff.test]
+        for a in atoms:
+            if isinstance(a, ast.Compare) and len(a.ops) == 1 and isinstance(a.ops[0], ast.Is) and isinstance(a.left, ast.Name) and a.left.id == x and isinstance(a.comparators[0], ast.Constant) and a.comparators[0].value is None:
+                # no re-assignment of X to None between the call and the test
+                return not any(isinstance(d, ast.Assign) and any(isinstance(t, ast.Name) and t.id == x for t in d.targets) and isinstance(d.value, ast.Constant) and d.value.value is None and d is not st and v.cfg.reachable(v.cfg_id(st), v.cfg_id(d)) for d in walk_no_nested(v.fi.node))
+    return False
